@@ -320,7 +320,8 @@ def run_check(check, tier, seed, jobs=None, only_shard=None):
     evidence = dict(property_id=check.id, tier=tier, seed=seed, level=check.level,
                     coverage=cov, assumptions=list(check.assumptions), wall_s=round(wall, 2),
                     violations=n_unknown)
-    if only_shard is None:
+    if only_shard is None and os.path.realpath(env.REPO) == '/repo':
+        # (runs against a scratch copy, YVM_REPO=..., are development aids: no evidence written)
         os.makedirs(os.path.join(env.VERIF, 'evidence'), exist_ok=True)
         with open(os.path.join(env.VERIF, 'evidence', check.id + '.json'), 'w') as f:
             json.dump(evidence, f, indent=1, default=str)
